@@ -2,10 +2,10 @@
    Model/Header.v (parseAuditHeader), Model/MsgType.v (type names over the generated
    table), Model/Parser.v (ParseLogLine / Parse glue: trimming, splitting at msg=,
    time.Unix arithmetic, offset). *)
-From Coq Require Import List Ascii String NArith ZArith Bool.
+From Coq Require Import List Ascii String NArith ZArith Bool Lia.
 Import ListNotations.
 Require Import Dec Header.
-Require Import Bytes MsgType MsgTypeFwd TablesLift.
+Require Import Bytes MsgType MsgTypeFwd TablesLift KV Trim Parser ParseLine.
 Open Scope N_scope.
 
 (* every seconds value in [0,2^34), milliseconds 000-999, sequence in uint32, ANY text
@@ -21,5 +21,29 @@ Proof. exact parse_render_header. Qed.
 Theorem C04_type_roundtrip : forall t, t < 65536 -> get_type (type_name t) = Some t.
 Proof. intros t Ht. apply optN_eqb_eq. exact (filter_nil_forall msgtype_fwd_okb all_types msgtypes_fwd_ok t (In_all_types t Ht)). Qed.
 
+(* a whole log line: every record type (UNKNOWN[n] included), timestamp and sequence, any text after the
+   header that survives trimming: ParseLogLine returns exactly that type, time (UTC seconds and
+   nanoseconds), sequence and raw text, and it does so through Parse on the text after msg= *)
+Theorem C04_log_line_roundtrip : forall t S m N rest,
+  t < 65536 -> S < 2 ^ 34 -> m < 1000 -> N < 2 ^ 32 ->
+  let msg := render_header (L "audit") S m N rest in
+  trim_space msg = msg ->
+  parse_log_line (L "type=" ++ type_name t ++ L " msg=" ++ msg) =
+    Some {| a_type := t; a_sec := Z.of_N S; a_nsec := (Z.of_N m * 1000000)%Z; a_seq := N; a_raw := msg;
+            a_off := index_func (fun c => (code c =? 58)%nat || (code c =? 32)%nat) (L ")" ++ rest) |}
+  /\ parse_log_line (L "type=" ++ type_name t ++ L " msg=" ++ msg) = parse t msg.
+Proof.
+  intros t S m N rest Ht HS Hm HN msg Htrim. pose proof (parse_log_line_render t S m N rest Ht HS Hm HN Htrim) as H. split; [exact H|].
+  fold msg in H. rewrite H. clear H. subst msg. unfold parse. rewrite Htrim. rewrite parse_render_header; auto.
+  cbn [h_sec h_msec h_seq h_after].
+  rewrite (s64_small (Z.of_N m * 1000000)) by lia.
+  rewrite (Z.div_small (Z.of_N m * 1000000) 1000000000) by lia. rewrite Z.add_0_r.
+  rewrite s64_small by (change (2^34) with 17179869184 in HS; lia).
+  rewrite Z.mod_small by lia. reflexivity.
+Qed.
+Example C04_example : trim_space (render_header (L "audit") 1700000000 7 42 (L "): pid=1 uid=0")) = render_header (L "audit") 1700000000 7 42 (L "): pid=1 uid=0").
+Proof. vm_compute. reflexivity. Qed.
+
 Print Assumptions C04_header_roundtrip.
+Print Assumptions C04_log_line_roundtrip.
 Print Assumptions C04_type_roundtrip.
